@@ -4,8 +4,8 @@ B = 'github.com/ProjectSerenity/firefly/kbuild'
 
 PROP = {'pkg': 'github.com/ProjectSerenity/firefly/kernel/mm/pmm',
  'tests': [{'name': 'TestVerifC09',
-            'checks_quick': 3000,
-            'checks_thorough': 12000,
+            'checks_quick': 6000,
+            'checks_thorough': 80000,
             'shards_quick': 2,
             'shards_thorough': 4}],
  'rule': 'rapid generates 1-3 pools of 1-130 frames (initialised through the real pmm.Init) and 2-16 worker programs '
